@@ -432,6 +432,36 @@ var c11CompKind = registerKind("c11comp", func(in c11CompIn) string {
 	return ""
 })
 
+// c11CompText: the three optional text setters of the component.
+var c11CompTextKind = registerKind("c11comptext", func(in struct {
+	Field string  `json:"field"`
+	Prev  *string `json:"previous_value"`
+	Text  string  `json:"text"`
+}) string {
+	sc := &psatoken.SwComponent{}
+	set := map[string]func(string) error{"type": sc.SetMeasurementType, "version": sc.SetVersion, "desc": sc.SetMeasurementDesc}[in.Field]
+	// (closures, not method values: the getters have value receivers, and a
+	// method value would bind a copy of the component as it is now)
+	get := map[string]func() (string, error){
+		"type":    func() (string, error) { return sc.GetMeasurementType() },
+		"version": func() (string, error) { return sc.GetVersion() },
+		"desc":    func() (string, error) { return sc.GetMeasurementDesc() },
+	}[in.Field]
+	if in.Prev != nil {
+		if err := set(*in.Prev); err != nil {
+			return "setting the earlier value failed: " + err.Error()
+		}
+	}
+	if err := set(in.Text); err != nil {
+		return fmt.Sprintf("component %s setter refuses %q: %v (every text is acceptable to validation)", in.Field, in.Text, err)
+	}
+	got, err := get()
+	if err != nil || got != in.Text {
+		return fmt.Sprintf("component %s getter after a successful set of %q returns %q, %v", in.Field, in.Text, got, err)
+	}
+	return ""
+})
+
 func TestC11_Sweep(t *testing.T) {
 	st := NewStats("C11", "TestC11_Sweep", "exhaustive: every byte-string setter of both profiles (impl-id, boot-seed, nonce, inst-id incl. type byte) and of the software component x lengths 0..80; lifecycle range ends and neighbours; certification-reference single-edit neighbourhood; VSI; on a fresh and on a fully populated claims-set. Oracle: setter succeeds iff the model's rule accepts; getter returns exactly the value; failure leaves Observe() unchanged; final encodings equal those of a fresh object given the same values. Non-trivial = value other than the canned 32-byte one; distinct = (profile, start state, setter, value class)")
 	st.Exhaustive = true
@@ -513,6 +543,23 @@ func TestC11_Sweep(t *testing.T) {
 			st.Case(fmt.Sprintf("comp/%s/%d", f, n), "component-setter")
 			if msg != "" {
 				reportCase(t, "C11", "c11comp", in, msg)
+			}
+		}
+	}
+	prevs := []*string{nil, sp("old"), sp("")}
+	for _, f := range []string{"type", "version", "desc"} {
+		for _, txt := range append([]string{"", " ", "x"}, interestingTexts...) {
+			for pi, prev := range prevs {
+				in := struct {
+					Field string  `json:"field"`
+					Prev  *string `json:"previous_value"`
+					Text  string  `json:"text"`
+				}{f, prev, txt}
+				msg := c11CompTextKind(in)
+				st.Case(fmt.Sprintf("comptext/%s/%d/%q", f, pi, txt), "component-text-setter")
+				if msg != "" {
+					reportCase(t, "C11", "c11comptext", in, msg)
+				}
 			}
 		}
 	}
